@@ -18,7 +18,7 @@ def run_impl(case):
     return life.strip_obs(life.run_case(case))
 
 
-def oracle(case, obs):
+def _oracle(case, obs):
     if obs['final'] is None:
         return None
     tr = obs['trace']
@@ -31,7 +31,8 @@ def oracle(case, obs):
         if e[0] == 'entered':
             cur = e[2]
         if e[0] == 'ctl' and e[1][0] == 'kill':
-            live = cur not in life.TERMINAL
+            before = [x for x in tr[:e[3]] if x[0] == 'entered']
+            live = (before[-1][2] if before else None) not in life.TERMINAL
             if live and e[2][0] == 'raised':
                 return {'signature': 'kill_raised', 'kind': e[2][1][1] if len(e[2][1]) > 1 else '', 'context': ctx(case, tr, i)}
             if live and e[2] == ['bool', False]:
@@ -53,6 +54,8 @@ def oracle(case, obs):
             return {'signature': 'kill_lost_process_still_live', 'kind': fin['state'], 'context': ctx(case, tr, accepted[0][0] if accepted else 0)}
         if fin['state'] == 'finished':
             return {'signature': 'kill_lost_process_finished', 'kind': 'finished', 'context': ctx(case, tr, accepted[0][0] if accepted else 0)}
+        if fin['state'] == 'killed' and any(x[0] == 'step_raised' for x in obs.get('side', [])):
+            return {'signature': 'failing_step_ended_killed', 'kind': 'killed', 'context': ctx(case, tr, accepted[0][0] if accepted else 0)}
         if fin['state'] == 'excepted' and not failing_step:
             return {'signature': 'kill_ended_excepted', 'kind': str(fin['future']), 'context': ctx(case, tr, accepted[0][0] if accepted else 0)}
         if fin['state'] == 'killed':
@@ -74,6 +77,29 @@ def oracle(case, obs):
     if fin['state'] not in life.TERMINAL:
         return {'signature': 'unkillable_live_process', 'kind': fin['state'], 'context': ctx(case, tr, len(tr) - 1)}
     return None
+
+
+def oracle(case, obs):
+    """The property check, with the failure classified by what triggered it (signatures of the known findings)."""
+    f = _oracle(case, obs)
+    if f is None:
+        return None
+    tr = obs['trace']
+    # D8: a kill issued by a listener while step() makes a transition is armed as an interrupt action, which step()'s
+    # `finally` cancels
+    for i, e in enumerate(tr):
+        if e[0] == 'ctl' and e[1] == ['kill', 'L'] and e[2][0] == 'action' and i > 0 and tr[i - 1][0] == 'listener' \
+                and tr[i - 1][1] in ('on_process_running', 'on_process_waiting', 'on_process_paused'):
+            f['class'] = f['signature']
+            f['signature'] = 'kill_from_listener_during_step_transition'
+            return f
+    # D3b: the future is cancelled, the done-callback that kills runs one callback later and the in-flight step completes first
+    if f['signature'] == 'kill_ended_excepted' and any(e[0] == 'cancel' for e in case['events']) \
+            and obs['final']['future'] == ['exn', ['py', 'InvalidStateError']] \
+            and not any(e[0] == 'ctl' and e[1][0] == 'kill' and e[2][0] == 'action' for e in tr):
+        f['class'] = f['signature']
+        f['signature'] = 'future_cancelled_but_step_completes_before_the_kill_callback'
+    return f
 
 
 def cancelled_live(case, obs):
